@@ -135,6 +135,8 @@ class RE:
     def _fin(self, v, e):
         if not (math.isfinite(v) and e == e):
             return RE(v, float("inf"))
+        if PREC["u"] == U32 and abs(v) + e > 0.99 * F32MAX:
+            return RE(v, float("inf"))      # may overflow in binary32: no bound, the cell is unconstrained
         return RE(v, e * SAFE)
 
     def add(self, o):
